@@ -1,9 +1,9 @@
 package props
 
 import (
-	"errors"
 	"context"
 	"encoding/hex"
+	"errors"
 	"fmt"
 	"strings"
 	"time"
@@ -85,6 +85,21 @@ func runC16(s *core.Sim, tier string) RunInfo {
 		return info()
 	}
 	ctx := context.Background()
+	// the application's OnDelete handler refuses once, somewhere inside a prune: that prune stops
+	// half-way (its progress is kept), and the Syncer must go on pruning and answering afterwards
+	handlerFailed := false
+	if w.Disk.Fault == nil && s.Tape.Coin("ondelete-handler-fails-once", 1, 4) {
+		failAtCall, calls := 1+s.Tape.Draw("handler-fail-at", 40), 0
+		w.St.OnDelete(func(context.Context, uint64) error {
+			calls++
+			if calls == failAtCall {
+				handlerFailed = true
+				s.Fault("ondelete-handler-error")
+				return errors.New("application: handler says no")
+			}
+			return nil
+		})
+	}
 	// tail requests beyond the network head are reported (wrap-around symptom)
 	beyond := uint64(0)
 	failNext := false // the next GetByHeight (the tail fetch of a Start) fails once
@@ -123,6 +138,14 @@ func runC16(s *core.Sim, tier string) RunInfo {
 		return p
 	}
 	everStored := map[uint64]bool{}
+	// (a Start that fails may have pruned already - under *its* configuration: what the next cycle's
+	// window clause looks at is what is stored when that cycle begins)
+	refreshEverStored := func() {
+		everStored = map[uint64]bool{}
+		for h := range w.storedHeights() {
+			everStored[h] = true
+		}
+	}
 	ncycles := 1 + s.Tape.Draw("cycles", 3)
 	for c := 0; c < ncycles && !s.Failed(); c++ {
 		p := gen()
@@ -190,6 +213,14 @@ func runC16(s *core.Sim, tier string) RunInfo {
 				// the datastore failed a write under the Store (injected window): Start may say so
 				hist = append(hist, "  start failed on an injected datastore error")
 				s.Probe("start-failed-on-disk-error")
+				refreshEverStored()
+				continue
+			}
+			if strings.Contains(startErr.Error(), "application: handler says no") {
+				// the application's OnDelete handler refused inside Start's own tail move: Start may say so
+				hist = append(hist, "  start failed on the OnDelete handler's refusal")
+				s.Probe("start-failed-on-handler-error")
+				refreshEverStored()
 				continue
 			}
 			if !expired {
@@ -200,6 +231,7 @@ func runC16(s *core.Sim, tier string) RunInfo {
 				break
 			}
 			hist = append(hist, "  start refused: network head expired")
+			refreshEverStored()
 			continue
 		}
 		// a few heads via gossip and Head(), clock moving on
@@ -256,6 +288,28 @@ func runC16(s *core.Sim, tier string) RunInfo {
 		}
 		if s.Failed() {
 			break
+		}
+		if handlerFailed && shape != "halted" {
+			// after the one refusal nothing is wedged: the next head is taken as any other
+			s.Sleep(time.Duration(1+s.Tape.Draw("blocks", 10)) * space)
+			var herr error
+			tk := s.Go("head", func() {
+				c, cancel := context.WithTimeout(ctx, 20*time.Minute)
+				defer cancel()
+				_, herr = w.Sy.Head(c)
+			})
+			if stuck := s.Settle(30*time.Minute, tk); len(stuck) > 0 || tk.Panic != nil {
+				s.Violate("hang", map[string]string{"op": "Head", "after": "handler-error"}, "Head() after an OnDelete handler refused once: stuck=%v panic=%v [%s]", len(stuck) > 0, tk.Panic, p.desc)
+				break
+			}
+			if herr != nil && strings.Contains(herr.Error(), "beyond current head+1") {
+				// (the listed finding K02, met at run time: the new tail is above the stored head)
+				s.Probe("head-after-handler-error-met-K02")
+			} else if herr != nil {
+				s.Violate("head-error-after-handler-error", nil, "an OnDelete handler refused once (a prune stopped half-way); a later Head() fails: %v [%s]", herr, p.desc)
+				break
+			}
+			s.Probe("head-after-handler-error")
 		}
 		// let syncing finish, then look at the store
 		tk := s.Go("sync-wait", func() {
